@@ -556,6 +556,16 @@ pub(crate) fn new_leaf_node<TC: Configuration>(
     )
 }
 
+/// Verification hook (compiled only with `--cfg akd_verif`): the crate-private
+/// record-resolution rule, for an external harness.
+#[cfg(akd_verif)]
+pub fn verif_determine_node_to_get(
+    record: &TreeNodeWithPreviousValue,
+    target_epoch: u64,
+) -> Result<TreeNode, StorageError> {
+    record.determine_node_to_get(target_epoch)
+}
+
 #[cfg(test)]
 mod tests {
     use akd_core::hash::DIGEST_BYTES;
